@@ -29,6 +29,8 @@ def check(run, tier):
     from ..drivers import files
     progs += [p for dev in ("evo", "fluent") for p in files.targeted_programs(dev) if "latin1" in p["id"] or "with-" in p["id"]]
     progs += targeted.rounding_programs("evo", r) + targeted.rounding_programs("fluent", r)
+    # argument shapes: tables, broadcasts (one volume for several wells in every spelling): a record for every booked well
+    progs += [p for dev in ("evo", "fluent") for p in targeted.shape_programs(dev) if "mismatch" not in p["id"]]
     n = 150 if q else 3000
     for i in range(n):
         dev = "evo" if i % 2 == 0 else "fluent"
